@@ -4,6 +4,7 @@ import (
 	"encoding/json"
 	"fmt"
 
+	"git.defalsify.org/vise.git/engine"
 	"git.defalsify.org/vise.git/resource"
 
 	"verif/app"
@@ -18,7 +19,7 @@ func init() {
 	register(&mc.Check{
 		ID:    "C20",
 		Level: "model_checking",
-		Rule: "applications with an end node at depth 0,1,2 of each kind (graceful with/without an own last value, abnormal before and after input handling, forced by an external TERMINATE request, CROAK) x client flag set earlier or not, x ALL input histories of length n over {1,0,junk} - long enough to pass the end and continue at least three requests beyond it - in persisted operation on the memory and filesystem backends (and long-lived up to the end); " +
+		Rule: "applications with an end node at depth 0,1,2 of each kind (graceful with/without an own last value - also under an output size the final output does not fit -, abnormal before and after input handling and through a wildcard match, forced by an external TERMINATE request, CROAK) x client flag set earlier or not, x ALL input histories of length n over {1,0,junk} - long enough to pass the end and continue at least three requests beyond it - in persisted operation on the memory and filesystem backends (and long-lived up to the end); " +
 			"reference VM in lockstep: ending request delivers the final output and reports stop, afterwards no symbol in any cache scope and client flags kept, the next request re-enters the entry node and re-runs its LOADs; after abnormal/forced end every later request reports stop with empty output, zero instructions (hook count), no external call and unchanged stored position/flags; states = distinct (app, position, flags, cache) after each request; non-trivial = histories that continue past an end",
 		Assumptions: []string{"the page printed by the request that terminates abnormally is not constrained", "final output is accepted as page+last value (what the code does) or page alone (the documentation's 'instead')", "WithFirst variants are not part of this check"},
 		Run:         c20Run,
@@ -57,6 +58,8 @@ func c20App(sp c20Spec) *app.App {
 		"G1": {{Op: codec.LOAD, Sym: "gv", N: 0}, {Op: codec.HALT}},
 		"A0": {{Op: codec.MOUT, Sym: "x", Sel: "1"}},
 		"A1": {{Op: codec.HALT}, {Op: codec.INCMP, Sym: "zz", Sel: "1"}, {Op: codec.INCMP, Sym: "_", Sel: "0"}},
+		// A2: the dead end is reached through the wildcard (e.g. after a free-text input node)
+		"A2": {{Op: codec.HALT}, {Op: codec.INCMP, Sym: "_", Sel: "0"}, {Op: codec.INCMP, Sym: "zz", Sel: "*"}},
 		"F0": {{Op: codec.LOAD, Sym: "term", N: 0}, {Op: codec.MOUT, Sym: "x", Sel: "1"}, {Op: codec.HALT}, {Op: codec.INCMP, Sym: "_", Sel: "0"}},
 		"K0": {{Op: codec.LOAD, Sym: "sf8", N: 0}, {Op: codec.CROAK, N: 8, Mode: true}, {Op: codec.HALT}, {Op: codec.INCMP, Sym: "_", Sel: "0"}},
 	}[sp.Kind]
@@ -85,7 +88,7 @@ func c20App(sp c20Spec) *app.App {
 	}
 	a.Node("zz", "zz", codec.Ins{Op: codec.MOUT, Sym: "y", Sel: "2"})
 	a.Node("_catch", "catch", codec.Ins{Op: codec.HALT}, codec.Ins{Op: codec.INCMP, Sym: "_", Sel: "*"})
-	a.Func("rv", counterFunc("r")).Func("gv", counterFunc("g"))
+	a.Func("rv", counterFunc("r")).Func("gv", counterFunc("goodbye-all-")) // 13 bytes: with OutputSize 14 every page fits, page + last value does not
 	a.Func("sf9", func(e *app.Env, sym string, in []byte, l string) (resource.Result, error) {
 		return resource.Result{Content: "", FlagSet: []uint32{9}}, nil
 	})
@@ -114,12 +117,13 @@ func c20Run(c *mc.Ctx) {
 		n = 8
 	}
 	c.Note("history_length", fmt.Sprint(n))
-	backends := []lsOpts{{Mode: "persisted", Backend: "mem"}, {Mode: "persisted", Backend: "fs"}, {Mode: "long-lived"}}
+	// the last two: tight output sizes - 9: most pages do not fit; 14: every page fits but page + last value does not
+	backends := []lsOpts{{Mode: "persisted", Backend: "mem"}, {Mode: "persisted", Backend: "fs"}, {Mode: "long-lived"}, {Mode: "persisted", Backend: "mem", Cfg: engine.Config{OutputSize: 9}}, {Mode: "persisted", Backend: "mem", Cfg: engine.Config{OutputSize: 14}}}
 	for name := range extraBackends {
 		backends = append(backends, lsOpts{Mode: "persisted", Backend: name})
 	}
 	for depth := 0; depth <= 2; depth++ {
-		for _, kind := range []string{"G0", "G1", "A0", "A1", "F0", "K0"} {
+		for _, kind := range []string{"G0", "G1", "A0", "A1", "A2", "F0", "K0"} {
 			for _, fl := range []bool{false, true} {
 				sp := c20Spec{depth, kind, fl}
 				a := c20App(sp)
